@@ -952,6 +952,8 @@ line = (
 # blanks before parsing, which would change string literals, DATA items
 # and the positions of error messages)
 line.parse_with_tabs()
+# the debugger parses expressions on their own
+expr.parse_with_tabs()
 
 
 # --- Parse actions ---
